@@ -164,11 +164,25 @@ fn uses_in(text: &str) -> Vec<String> {
 }
 
 impl C17Worker {
-    fn canonical(&mut self, set: &[String]) -> Result<(Vec<String>, BTreeSet<String>), String> {
-        if let Some(c) = self.canon.get(set) {
+    /// `overrides`: modules whose source is replaced (a user directory in front of the stock
+    /// modules); the instrumented importer serves them before the real files.
+    fn canonical(
+        &mut self,
+        set: &[String],
+        overrides: &[(String, String)],
+    ) -> Result<(Vec<String>, BTreeSet<String>), String> {
+        let mut key: Vec<String> = set.to_vec();
+        for (m, _) in overrides {
+            key.push(format!("|override:{m}"));
+        }
+        let set_key = &key;
+        if let Some(c) = self.canon.get(set_key) {
             return Ok(c.clone());
         }
         self.importer.reset_run();
+        for (m, src) in overrides {
+            self.importer.add_module(m, src);
+        }
         self.importer.set_tag("canon");
         let mut s = Sess::new(self.importer.clone());
         for m in set {
@@ -188,7 +202,7 @@ impl C17Worker {
         if self.canon.len() > 300 {
             self.canon.clear();
         }
-        self.canon.insert(set.to_vec(), (d.clone(), fetched.clone()));
+        self.canon.insert(key, (d.clone(), fetched.clone()));
         Ok((d, fetched))
     }
 }
@@ -252,7 +266,27 @@ pub fn exec_trace(w: &mut C17Worker, trace: &Value, res: &mut ExecResult) {
         }
     }
     let set: Vec<String> = set.into_iter().collect();
-    let canon = match w.canonical(&set) {
+    // "fs2": a user directory with MODIFIED copies of some modules in front of the stock modules
+    // (two roots of one FileSystemImporter): precedence must not depend on what was imported before
+    let mut overrides: Vec<(String, String)> = vec![];
+    if trace["importer"].as_str() == Some("fs2") {
+        let empty = vec![];
+        for m in trace["overlay"].as_array().unwrap_or(&empty).iter().filter_map(|x| x.as_str()) {
+            let src = format!("{}/{}.nbt", crate::sess::modules_dir(), m.replace("::", "/"));
+            match std::fs::read_to_string(&src) {
+                Ok(t) => {
+                    if !overrides.iter().any(|(n, _)| n == m) {
+                        overrides.push((m.to_string(), format!("{t}\nlet ovl_{} = 1\n", m.replace("::", "_"))));
+                    }
+                }
+                Err(_) => {
+                    res.harness_error = Some(format!("cannot read {src}"));
+                    return;
+                }
+            }
+        }
+    }
+    let canon = match w.canonical(&set, &overrides) {
         Ok(c) => c,
         Err(e) => {
             // the canonical delivery itself failing is a violation of "every import succeeds"
@@ -275,6 +309,25 @@ pub fn exec_trace(w: &mut C17Worker, trace: &Value, res: &mut ExecResult) {
         "builtin" => Sess::with_importer(numbat::module_importer::BuiltinModuleImporter::default()),
         "fs" => {
             let mut fs = numbat::module_importer::FileSystemImporter::default();
+            fs.add_path(crate::sess::modules_dir());
+            Sess::with_importer(fs)
+        }
+        "fs2" => {
+            let dir = overlay_dir();
+            let _ = std::fs::remove_dir_all(&dir);
+            let _ = std::fs::create_dir_all(&dir);
+            for (m, src) in &overrides {
+                let dst = dir.join(format!("{}.nbt", m.replace("::", "/")));
+                if let Some(p) = dst.parent() {
+                    let _ = std::fs::create_dir_all(p);
+                }
+                if std::fs::write(&dst, src).is_err() {
+                    res.harness_error = Some("cannot write the overlay directory".into());
+                    return;
+                }
+            }
+            let mut fs = numbat::module_importer::FileSystemImporter::default();
+            fs.add_path(&dir);
             fs.add_path(crate::sess::modules_dir());
             Sess::with_importer(fs)
         }
@@ -542,8 +595,23 @@ impl Prop for C17 {
         let mut trace = json!({"format": 1, "property": "C17", "kind": kind, "deliveries": deliveries, "synthetic": synthetic});
         // 1 run in 5 without wrapper modules goes through numbat's own importers
         if synthetic.is_empty() && rng.chance(0.2) {
-            let k = *rng.pick(&["builtin", "fs", "chained", "chained"]);
+            let k = *rng.pick(&["builtin", "fs", "fs2", "fs2", "chained", "chained"]);
             trace["importer"] = json!(k);
+            if k == "fs2" {
+                // modified copies of 1-3 of the delivered modules (or of modules they import)
+                let n = rng.range(1, 3) as usize;
+                let delivered: Vec<String> = deliveries.iter().flat_map(|d| uses_in(d)).collect();
+                let overlay: Vec<String> = (0..n)
+                    .map(|_| {
+                        if !delivered.is_empty() && rng.chance(0.8) {
+                            rng.pick(&delivered).clone()
+                        } else {
+                            rng.pick(&mods).clone()
+                        }
+                    })
+                    .collect();
+                trace["overlay"] = json!(overlay);
+            }
             if k == "chained" {
                 // the user directory holds a seeded subset of the real modules (identical copies)
                 let n = rng.range(0, 6) as usize;
